@@ -193,11 +193,13 @@ func unicodeNoise(r *rand.Rand) string {
 }
 
 // Classes of generated strings (for coverage accounting).
-var StrClasses = []string{"sys", "ast", "ast-spelled", "ast-mutated", "suite", "suite-mutated", "soup", "unicode", "grammar", "splice"}
+var StrClasses = []string{"sys", "ast", "ast-spelled", "ast-mutated", "suite", "suite-mutated", "soup", "unicode", "grammar", "splice", "nest"}
 
 // Next returns one string and the class it came from. g supplies random ASTs.
 func (sg *StrGen) Next(r *rand.Rand, g *Gen) (string, string) {
-	switch c := r.Intn(24); {
+	switch c := r.Intn(26); {
+	case c >= 24:
+		return Clip(Nest(r)), "nest"
 	case c >= 20:
 		return sg.Splice(r), "splice"
 	case c < 2 && len(sg.Sys) > 0:
@@ -325,4 +327,44 @@ func HarvestSuiteExpectations() []SuiteExpect {
 		out = append(out, e)
 	}
 	return out
+}
+
+// Nest builds deeply nested or very long but regular paths (within 256 characters): filters inside
+// filter operands, parentheses, long logical chains, long step / union / function chains. They are
+// what makes a backtracking parser or a recursive evaluator super-linear.
+func Nest(r *rand.Rand) string {
+	rep := func(s string, n int) string { return strings.Repeat(s, n) }
+	switch r.Intn(12) {
+	case 0: // filter inside filter operand (existence)
+		d := 1 + r.Intn(40)
+		return "$" + rep("[?(@", d) + ".a" + rep(")]", d)
+	case 1: // filter inside comparison operand
+		d := 1 + r.Intn(24)
+		return "$" + rep("[?(@", d) + ".a" + rep("==1)]", d)
+	case 2: // parentheses
+		d := 1 + r.Intn(110)
+		return "$[?(" + rep("(", d) + "@.a" + rep(")", d) + ")]"
+	case 3: // nested parentheses with operators
+		d := 1 + r.Intn(40)
+		return "$[?(" + rep("(@.a&&", d) + "@.b" + rep(")", d) + ")]"
+	case 4:
+		return "$[?(" + rep("@.a&&", 1+r.Intn(45)) + "@.b)]"
+	case 5:
+		return "$[?(" + rep("@.a==1||", 1+r.Intn(28)) + "@.b)]"
+	case 6:
+		return "$" + rep([]string{".a", "..a", "[0]", ".*", "['a']", "[*]", "[0:1]"}[r.Intn(7)], 1+r.Intn(60))
+	case 7:
+		return "$[" + rep("0,", 1+r.Intn(100)) + "0]"
+	case 8:
+		return "$[" + rep("'a',", 1+r.Intn(50)) + "*]"
+	case 9:
+		return "$.a" + rep([]string{".ident()", ".count()", ".nofn()", ".wrap()"}[r.Intn(4)], 1+r.Intn(25))
+	case 10: // `$`-rooted filters nested in `$` operands
+		d := 1 + r.Intn(30)
+		return "$" + rep("[?($", d) + ".a" + rep(")]", d)
+	default: // recursive descent with nested filters; evaluation cost is (containers of the document)^d by the
+		// very meaning of the query, so d stays small: deeper ones would be slow in ANY correct evaluator
+		d := 1 + r.Intn(4)
+		return "$" + rep("..[?(@", d) + ".a" + rep(")]", d)
+	}
 }
